@@ -1386,7 +1386,7 @@ M("SEED-C17-b", ["C17"], [("@patch", "seeded/C17-b/patch.diff", "")], ["C17/slot
 M("SEED-C18-a", ["C18"], [("@patch", "seeded/C18-a/patch.diff", "")], ["C18/final-ack/PubRec/reason-always-checked"])
 M("SEED-C18-b", ["C18"], [("@patch", "seeded/C18-b/patch.diff", "")], ["C18/invalidate/on-every-fresh-session"])
 M("SEED-C19-a", ["C19"], [("@patch", "seeded/C19-a/patch.diff", "")], ["C19/coverage/valid_for/WithCorrelation"])
-M("SEED-C19-b", ["C19"], [("@patch", "seeded/C19-b/patch.diff", "")], ["C19/qos/downgrade-guard"])
+M("SEED-C19-b", ["C19"], [("@patch", "seeded/C19-b/patch.diff", "")], ["C19/qos/identifier-decision"])
 M("SEED-C20-a", ["C20"], [("@patch", "seeded/C20-a/patch.diff", "")], ["C20/target/topic"])
 M("SEED-C20-b", ["C20"], [("@patch", "seeded/C20-b/patch.diff", "")], ["C20/publication/OwnedResponseTarget/correlation"])
 
@@ -1520,6 +1520,8 @@ M("RFM-enumerate-index-over-skipped-iterator", ["C03"], [("@patch", "selftest/mu
 RF("RF-head-first-lookup-with-offset", ALL19, [("@patch", "selftest/refactors/RF-head-first-lookup.diff", "")])
 M("RFM-pass-enum-fresh-first", ["C01"], [("@patch", "selftest/mutants_rf/pass-enum-fresh-first.diff", "")], ["C01/priority/in-progress-first"])
 M("RFM-counter-plain-u16-no-zero-step", ["C07", "C01"], [("@patch", "selftest/mutants_rf/counter-plain-u16-no-zero-step.diff", "")], ["C07/nz/returns-nonzero", "C01/id-nz/returns-nonzero"])
+M("RFM-option-bits-expr-swapped", ["C09", "C01"], [("@patch", "selftest/mutants_rf/option-bits-expr-swapped.diff", "")], ["C09/bits/suboptions/no-local", "C01/bits/suboptions/no-local"])
+M("RFM-publish-dup-bit-expr-wrong", ["C09", "C01"], [("@patch", "selftest/mutants_rf/publish-dup-bit-expr-wrong.diff", "")], ["C09/bits/publish/dup"])
 M("RFM-predicates-pending-ignores-generation", ["C18"], [("@patch", "selftest/mutants_rf/predicates-pending-ignores-generation.diff", "")], ["C18/status/table"])
 
 # fourth round: organisational refactorings (guard clauses, sub-borrows, loop forms, private structs, generic helpers)
@@ -1535,6 +1537,12 @@ for _p in sorted(_glob.glob(_os.path.join(_os.path.dirname(_os.path.abspath(__fi
 # A check that caught the seed only because of the new *shape* raises a false alarm here.
 for _p in sorted(_glob.glob(_os.path.join(_os.path.dirname(_os.path.abspath(__file__)), "refactors", "rf6", "*.diff"))):
     RF("RF6-" + _os.path.basename(_p)[:-5], ALL19, [("@patch", "selftest/refactors/rf6/" + _os.path.basename(_p), "")])
+
+# seventh round: refactorings aimed at the code the clauses of seed rounds 5-7 look at (property iterator and sizes, the
+# write / flush tail, the drive loop, the CONNACK handling, removal functions and their results, reason-code predicates,
+# status queries, the operations, the packet reader, the serializers, replay and keep-alive bookkeeping)
+for _p in sorted(_glob.glob(_os.path.join(_os.path.dirname(_os.path.abspath(__file__)), "refactors", "rf7", "*.diff"))):
+    RF("RF7-" + _os.path.basename(_p)[:-5], ALL19, [("@patch", "selftest/refactors/rf7/" + _os.path.basename(_p), "")])
 
 
 # Behaviour-preserving refactorings on which a check is *known* to fail closed (documented in DESIGN.md §6.5 / §8): the
@@ -1561,8 +1569,21 @@ KNOWN_LIMITS = {
     "RF5-C17-02-arena-struct": ("`Outbound::{buf, used}` (anchored state of C17) grouped into a private `Arena` struct", ["C01/", "C02/", "C12/", "C17/"]),
     "RF5-C18-04-generation-in-outbound": ("the generation counter (anchored state of C05/C18) moves from SessionData into Outbound", ["C05/", "C18/"]),
     "RF5-C09-02-ser-body-len-cursor": ("`MqttSerializer::index` (anchored state of C01.len) replaced by a body-length counter", ["C01/len/"]),
+    # round 7: documented limits
+    "RF7-G02-01-written-progress-combinators": ("`SendState::set_written(&mut self, written, len)` becomes a pure constructor `after_write(written, len) -> Self` "
+                                                "(a new function, folded into the three setters): the anchor of the `store` group is gone",
+                                                ["C01/ANCHOR-LOST/store/", "C04/ANCHOR-LOST/store/", "C13/ANCHOR-LOST/store/", "C15/ANCHOR-LOST/store/"]),
+    "RF7-G04-03-connect-event-as-session-flag": ("the `resumed` flag is replaced by the ConnectEvent computed once and returned through `match event { .. } Ok(event)`: "
+                                                 "the event table is read from the two `Ok(ConnectEvent::..)` constructions", ["C05/reset/event"]),
+    "RF7-G07-04-status-as-option-bool": ("`Session::status` returns `Option<bool>` and the `OpStatus` enum is deleted (anchored representation of the verdict)",
+                                         ["C05/status/table", "C18/status/table"]),
+    "RF7-G09-02-publish-qos2-admit-helper": ("the delivery verdict of the QoS 2 arm is kept in a local computed by `!duplicate && reason.success()` and returned as "
+                                             "`Ok(deliver)`: the value on the delivering path is not a constant the path enumeration can follow",
+                                             ["C04/once/deliver-implies-recorded"]),
+    "RF7-G09-03-pubrel-release-id-and-checked-queue": ("`position` + `swap_remove` becomes an explicit indexed loop: a new bounds-checked indexing site on the inbound path "
+                                                       "has no entry in the panic-site discharge table (a new site is reported by design)", ["C08/panic/"]),
     "RF5-C08-03-deserializer-remaining-slice": ("`MqttDeserializer::{buf, index}` replaced by the remaining slice + total length: the new `split_at` / subtraction sites "
-                                                "have no entry in the panic-site discharge table", ["C08/panic/"]),
+                                                "have no entry in the panic-site discharge table; the byte count is `total - remaining.len()`, not a cursor field", ["C08/panic/", "C08/props-iter/", "C04/props-iter/", "C20/props-iter/"]),
     "RF5-C03-05-pubrel-size-and-encode-as-methods": ("reference functions become methods with *different* parameter sets (serialize_pubrel over a step record, "
                                                      "check_pubrel_size on the entry type, queue_release taking a ready-made record): positional argument rules lose the sites",
                                                      ["C03/rel/id", "C06/rel/id", "C03/wire/", "C04/offarena/", "C14/tx/"]),
